@@ -31,7 +31,7 @@ CHECKS = {
         design="DESIGN.md §5 C03",
         technique="Coq proof (sorting + first-match lemmas, per-method walk theorems) + rule-text correspondence + packet-walk oracle on emitted rules"),
     "C10": dict(
-        text=("38 theorems over all event sequences of the datagram state machines (Props/C10.v; incl. the end of TCP flows sharing the identifier table: a captured query is forwarded whenever one of the identifiers the cursor visits is free, finished TCP flows included — c10_query_forwarded_if_identifier_free, c10_tcp_end_releases_identifier; and a per-attempt system name-server list: each attempt goes to the configured resolver or to a member of the list AS IT IS AT THAT ATTEMPT — c10_attempt_target_current, Model/DgramNs.v): query relayed verbatim on a fresh "
+        text=("39 theorems over all event sequences of the datagram state machines (Props/C10.v; incl. the end of TCP flows sharing the identifier table: a captured query is forwarded whenever one of the identifiers the cursor visits is free, finished TCP flows included — c10_query_forwarded_if_identifier_free, c10_tcp_end_releases_identifier; and a per-attempt system name-server list: each attempt goes to the configured resolver or to a member of the list AS IT IS AT THAT ATTEMPT — c10_attempt_target_current, Model/DgramNs.v; over the whole life of a query at most three attempts whatever mixture of errors — c10_attempt_budget_whole_life): query relayed verbatim on a fresh "
               "identifier, resolver target and at most 3 attempts with retry only after NET_ERRS, first reply relayed once and handler retired, "
               "reply to the recorded asker from the recorded destination, at most one datagram per query over whole runs, exact lazy expiry, "
               "no exception for any socket outcome or identifier exhaustion; WHOLE SERVER: an invariant relating handlers, dnshandlers, udphandlers and mux.channels holds in every reachable state of the real loop structure, "
